@@ -19,6 +19,7 @@ import (
 	"sort"
 	"strings"
 
+	vmcommon "github.com/ElrondNetwork/elrond-vm-common"
 	"github.com/ElrondNetwork/elrond-vm-common/data/esdt"
 )
 
@@ -475,6 +476,27 @@ func (c *ctx) chargesAfter(u *universe, seq changeSeq, sizes []int) {
 				}
 				if len(c.rep.Samples) < 8 && g == learnGas {
 					c.sample(map[string]interface{}{"sequence": seq.Name, "scenario": sc.Name, "charge": want})
+				}
+				// the price does not depend on the call type: the same sender-side execution as an asynchronous call, a callback and a
+				// transfer-and-execute call (only where the caller's account is local: a callback without it is the returning leg, not priced)
+				if g == learnGas && sc.Call.Snd && sc.Call.CallType == vmcommon.DirectCall {
+					for _, ct := range []vmcommon.CallType{vmcommon.AsynchronousCall, vmcommon.AsynchronousCallBack, vmcommon.ESDTTransferAndExecute} {
+						call := *sc.Call
+						call.CallType = ct
+						sc2 := &gasScenario{Name: sc.Name, W: sc.W, Call: &call}
+						res2 := c.runOn(sc2, g, ct == vmcommon.AsynchronousCallBack)
+						c.note(fmt.Sprintf("%s/calltype=%d", name, ct), true)
+						if res2.Status != 0 || res2.Out == nil {
+							c.count(fmt.Sprintf("priced-calltype/%d/rejected/%s", ct, sc.Call.Fn))
+							continue
+						}
+						c.count(fmt.Sprintf("priced-calltype/%d/ok/%s", ct, sc.Call.Fn))
+						if spent2 := new(big.Int).Sub(new(big.Int).SetUint64(g), gasOut(res2.Out)); spent2.Cmp(new(big.Int).SetUint64(want)) != 0 {
+							r := replay(g)
+							r["call_type"] = int(ct)
+							c.fail("monitor", "wrong-charge/"+sc.Call.Fn, fmt.Sprintf("%s as call type %d: spent %s, the function's own entry (+ per-byte components) gives %d", name, ct, spent2, want), r)
+						}
+					}
 				}
 			} else if res.Status == 0 && res.Out != nil && gasOut(res.Out).Sign() != 0 {
 				c.fail("monitor", "underfunded-keeps-gas/"+sc.Call.Fn,
